@@ -10,8 +10,8 @@
     `redact`        eventV1.go:157,162,166,171 / eventV2.go:98,103,107,112
     `signWith`      eventV1.go:237,241 / eventV2.go:128,132
   This file adds the remaining methods (those without a site are total functions, listed so that the
-  no-panic theorem really ranges over the whole interface), the one site `signWith` maps to
-  `unmodelled` although the Go code panics there (`sign`: SignJSON cannot decode the `signatures`
+  no-panic theorem really ranges over the whole interface), `signableEventJSON` and the one site `signWith`
+  maps to `unmodelled` although the Go code panics there (`sign`: SignJSON cannot decode the `signatures`
   member of the redacted event), the nil-function site of `PowerLevels()`, and the enumeration `Acc` of
   all calls with `run`.
 
@@ -130,12 +130,23 @@ def sigsDecodable (e : PDU) : Bool :=
   | .ok (.obj r) => (Sign.readPreserve r).isSome
   | _ => true
 
-/-- `PDU.Sign(name, kid, sk)`, given the signature ed25519 produces.  The Go method panics whenever
-    `signEvent` returns an error; besides the redaction failing (`signWith`) that is `SignJSON` failing
-    on a `signatures` member that does not decode — which `signWith` reports as `unmodelled`. -/
+/-- `json.Unmarshal(raw, &map[string]map[KeyID]spec.Base64Bytes{})` succeeds on this value -/
+def sigValDecodable (v : JVal) : Bool := (Sign.decodeOuterInto Sign.decodeSigVal (some []) v).isSome
+
+/-- `signableEventJSON` (eventV1.go): what `Sign()` hands to `signEvent` — the event without its (first)
+    `signatures` member when that member does not decode (no signature check can read it either). -/
+def signable (e : PDU) : PDU :=
+  match getFirst e.obj b!"signatures" with
+  | none => e
+  | some v => if sigValDecodable v then e else { e with obj := deleteFirst b!"signatures" e.obj }
+
+/-- `PDU.Sign(name, kid, sk)`, given the signature ed25519 produces; the result is a copy (an event of the same
+    struct: eventV3 overrides the method).  The Go method panics whenever `signEvent` returns an error: the redaction
+    failing (`signWith`), or `SignJSON` failing on a `signatures` member that does not decode — which after
+    `signableEventJSON` needs an event whose text repeats the member (first occurrence decodable, last not). -/
 def sign (e : PDU) (name kid sig : Bytes) : Except Err PDU :=
-  if !sigsDecodable e then .error (.panic "eventV1.go:237/eventV2.go:128 Sign: signEvent: SignJSON cannot decode the signatures member")
-  else signWith e name kid sig
+  if !sigsDecodable (signable e) then .error (.panic "eventV1.go/eventV2.go Sign: signEvent: SignJSON cannot decode the signatures member")
+  else signWith (signable e) name kid sig
 
 /-! ## The whole interface -/
 
@@ -186,13 +197,11 @@ def Acc.isSign : Acc → Bool
   | .sign _ _ _ => true
   | _ => false
 
-/-- the calls that are safe on whatever ANY constructor returned (trusted JSON included): all but `Redact()` and
-    `Sign()` (dominated only by what the untrusted constructors check) and `RoomID()` (a version-12 create event built
-    from trusted JSON keeps an `event_id` member of that JSON as its ID) -/
+/-- the calls that are safe on whatever `NewEventFromTrustedJSON` returned: all but `Redact()` and `Sign()` (dominated
+    only by what the untrusted constructors check) -/
 def Acc.trustedSafe : Acc → Bool
   | .redact => false
   | .sign _ _ _ => false
-  | .roomID => false
   | _ => true
 
 /-- the site a call reaches, if any (driver / examples) -/
